@@ -170,6 +170,19 @@ struct Observed {
     source_calls: u64,
 }
 
+thread_local! {
+    /// > 0: the consumer advances with `nth(STRIDE)` (what `skip`, `step_by` and `nth` boil down
+    /// to) instead of `next()`: STRIDE items are passed over before each one that is looked at
+    static STRIDE: std::cell::Cell<usize> = const { std::cell::Cell::new(0) };
+}
+
+fn with_stride<T>(k: usize, f: impl FnOnce() -> T) -> T {
+    STRIDE.with(|c| c.set(k));
+    let r = f();
+    STRIDE.with(|c| c.set(0));
+    r
+}
+
 fn observe_generic(bytes: &[u8], plan: SourcePlan, max_items: usize) -> Result<Observed, String> {
     guarded(|| {
         let mut src = SimSource::new(bytes, plan);
@@ -186,7 +199,8 @@ fn observe_generic(bytes: &[u8], plan: SourcePlan, max_items: usize) -> Result<O
                             break;
                         }
                         n += 1;
-                        match rd.next() {
+                        let stride = STRIDE.with(|c| c.get());
+                        match if stride > 0 { rd.nth(stride) } else { rd.next() } {
                             None => {
                                 // latch: a few more calls must keep returning None
                                 let mut extra = 0;
@@ -237,7 +251,8 @@ fn observe_deser<T: Corp>(bytes: &[u8], plan: SourcePlan, max_items: usize) -> R
                             break;
                         }
                         n += 1;
-                        match it.next() {
+                        let stride = STRIDE.with(|c| c.get());
+                        match if stride > 0 { it.nth(stride) } else { it.next() } {
                             None => {
                                 let mut extra = 0;
                                 for _ in 0..3 {
@@ -460,6 +475,29 @@ fn judge_marker(b: &Built, which: usize, o: &Observed, iter: &str, codec: &str) 
     None
 }
 
+/// A consumer that advances with `nth(k)`: what it is handed must be exactly every (k+1)-th of
+/// the values it would have been handed one by one (`expected`: the true prefix), nothing beyond.
+/// (An `Err` that falls among the items passed over is dropped by `nth` itself, so the number of
+/// errors seen is not judged here.)
+fn judge_stepped(expected: &[&Value], k: usize, o: &Observed, what: &str, iter: &str, codec: &str) -> Option<Failure> {
+    if !o.open_ok {
+        return None;
+    }
+    let want: Vec<&Value> = expected.iter().skip(k).step_by(k + 1).cloned().collect();
+    if o.oks.len() != want.len() || !o.oks.iter().zip(&want).all(|(a, b)| avro_eq(a, b)) {
+        let class = if o.oks.len() > want.len() { "values-beyond-complete-blocks" } else { "not-a-true-prefix" };
+        return Some(Failure::new(
+            class,
+            format!("C14 {class} access=nth({k}) iter={iter}"),
+            format!("{what}: advancing with nth({k}), {} value(s) of the {} that may be delivered are due, the reader handed over {}; codec {codec}", want.len(), expected.len(), o.oks.len()),
+        ));
+    }
+    if !o.ended {
+        return Some(Failure::new("no-end", format!("C14 no-end access=nth({k}) iter={iter}"), format!("{what}: iterator did not end; codec {codec}")));
+    }
+    None
+}
+
 fn total_items(b: &Built) -> usize {
     b.expected.iter().map(|v| v.len()).sum()
 }
@@ -567,6 +605,37 @@ fn run_damage(case: &Case, b: &Built, d: &Damage, ctx: &mut Ctx) -> Option<Failu
                     f.detail = format!("{} [damage={}]", f.detail, serde_json::to_string(d).unwrap());
                     return Some(f);
                 }
+                // the same damage met by a consumer that skips: nth(k)
+                let stepped: Option<(Vec<&Value>, Vec<usize>, Vec<u8>, SourcePlan, String)> = match d {
+                    Damage::Marker { which, byte, xor } if *which > 0 => {
+                        let off = b.layout.blocks[*which - 1].marker_start + byte;
+                        let mut bytes = b.bytes.clone();
+                        bytes[off] ^= xor;
+                        let expected: Vec<&Value> = b.expected.iter().take(*which - 1).flat_map(|v| v.iter()).collect();
+                        // pass over one item, and over exactly the damaged block
+                        let ks = if byte % 8 == 0 { vec![1, b.expected[*which - 1].len().max(1)] } else { vec![] };
+                        Some((expected, ks, bytes, SourcePlan::perfect(), format!("marker occurrence {which} damaged")))
+                    }
+                    Damage::Cut { at, chunk, .. } if *at as usize >= b.layout.header_end && at % 9 == case.salt % 9 => {
+                        let x = *at as usize;
+                        let expected: Vec<&Value> = b.layout.blocks.iter().zip(&b.expected).filter(|(blk, _)| blk.end <= x).flat_map(|(_, v)| v.iter()).collect();
+                        Some((expected, vec![2], b.bytes.clone(), SourcePlan { chunk: chunk.clone(), faults: vec![ReadFault { kind: ReadFaultKind::Eof, at: *at }], eintr_every: 0 }, format!("file cut at {x}")))
+                    }
+                    _ => None,
+                };
+                if let Some((expected, ks, bytes, plan, what)) = stepped {
+                    for k in ks {
+                        let o2 = with_stride(k, || observe(case, &bytes, plan.clone(), max_items, *deser));
+                        ctx.eval();
+                        ctx.agg.count("probe.consumer_advances_with_nth");
+                        if let Ok(o2) = o2 {
+                            if let Some(mut f) = judge_stepped(&expected, k, &o2, &what, iname, codec) {
+                                f.detail = format!("{} [damage={}]", f.detail, serde_json::to_string(d).unwrap());
+                                return Some(f);
+                            }
+                        }
+                    }
+                }
             }
         }
     }
@@ -667,7 +736,17 @@ impl Property for C14 {
         // a library-written file encodes multi-entry maps in hash order, which would make the file
         // (and so the set of crash points) differ from process to process: one entry at most there
         let producer = if wr.fork("producer").chance(3, 4) { Producer::Reference } else { Producer::Library };
-        let payload = if wr.chance(2, 3) {
+        let marker = marker_from(&mut wr.fork("marker"));
+        let payload = if wr.fork("marker-in-payload").chance(1, 10) {
+            // `bytes` values, some of them equal to the file's own sync marker: a cut right behind
+            // such an occurrence leaves a file whose last 16 bytes look like a block trailer
+            let mut mr = wr.fork("marker-values");
+            let blocks = sizes
+                .iter()
+                .map(|n| (0..(*n).min(6)).map(|_| RV::Bytes(if mr.chance(1, 2) { marker.to_vec() } else { let k = mr.usize_below(20); mr.bytes(k) })).collect())
+                .collect();
+            Payload::Generic { schema: RS::Bytes, blocks }
+        } else if wr.chance(2, 3) {
             // small schemas: the file is re-read once per byte offset
             let schema = match wr.below(8) {
                 0 => RS::Null,
@@ -704,7 +783,7 @@ impl Property for C14 {
             payload,
             codec,
             user_meta,
-            marker: marker_from(&mut wr),
+            marker,
             producer,
             salt: wr.next_u64(),
             only: None,
